@@ -340,29 +340,87 @@ def check_percolation(ctx):
     for n in ast.walk(body):
         if isinstance(n, ast.Assign) and len(n.targets) == 1:
             txt.setdefault(norm_text(n.targets[0]), n.value)
+    from .common import parse_sx
+    it = ctx.entry(OPP)
+
+    def product_with_dims(t):
+        """t == F.dims * M (operator or np.multiply, either order) -> text of M, else None"""
+        ops = None
+        if isinstance(t, ast.BinOp) and isinstance(t.op, ast.Mult):
+            ops = (t.left, t.right)
+        elif isinstance(t, ast.Call) and norm_text(t.func).split('.')[-1] == 'multiply' and len(t.args) == 2:
+            ops = (t.args[0], t.args[1])
+        if ops is None:
+            return None
+        l, r = norm_text(ops[0]), norm_text(ops[1])
+        return r if l == 'F.dims' else (l if r == 'F.dims' else None)
+
+    # the searches: optimal_path(graph, start=peak, stop=peak + image)
+    searches = [e for e in it.events if e['tag'] == 'call' and e['callee'] == OP and OPP in e['ctx']]
+    seen = set()
+    searches = [e for e in searches if not (id(e['node']) in seen or seen.add(id(e['node'])))]
     mask = None
-    # image = F.dims * mask
-    img = txt.get('image')
-    if img is not None and isinstance(img, ast.BinOp) and isinstance(img.op, ast.Mult):
-        l, r = norm_text(img.left), norm_text(img.right)
-        if l == 'F.dims':
-            mask = r
-        elif r == 'F.dims':
-            mask = l
-    ctx.ob('R5', fi, img if img is not None else 'image', True if mask else (False if img is not None else None),
+    img_node = None
+    for e in searches:
+        ofi = ctx.fn(OP)
+        from .common import bound_args
+        b = bound_args(ofi, e['args'], e['kwargs'])
+        st_, sp_ = b.get('start'), b.get('stop')
+        call = e['node']
+        kwn = {k.arg: k.value for k in call.keywords if k.arg}
+        sp_node = kwn.get('stop') or (call.args[2] if len(call.args) > 2 else None)
+        st_node = kwn.get('start') or (call.args[1] if len(call.args) > 1 else None)
+        t = parse_sx(it.sx(sp_node), full=True) if sp_node is not None else None
+        stx = norm_text(parse_sx(it.sx(st_node), full=True)) if st_node is not None and parse_sx(it.sx(st_node), full=True) is not None else None
+        okstop = None
+        if isinstance(t, ast.BinOp) and isinstance(t.op, ast.Add) and stx is not None:
+            l, r = norm_text(t.left), norm_text(t.right)
+            other = t.right if l == stx else (t.left if r == stx else None)
+            if other is not None:
+                m_ = product_with_dims(other)
+                okstop = True
+                img_node = other
+                if m_ is not None:
+                    mask = m_
+            else:
+                okstop = False
+        ctx.ob('R5', e['where'], call, okstop, 'stop = start + image' if okstop else 'the percolation target is not the periodic image of the start peak')
+        g0 = call.args[0] if call.args else kwn.get('F_graph')
+        gtxt = it.sx(g0) if g0 is not None else ''
+        gv = e['args'][0] if e['args'] else e['kwargs'].get('F_graph')
+        ok = gv is not None and gv.ty == 'Graph'
+        ctx.ob('R5', e['where'], norm_text(call) + ' [graph]', True if ok else None, 'path from the peak to its image on the tiled graph')
+    if not searches:
+        ctx.ob('R5', fi, 'optimal_path', None, 'search from a peak to its periodic image not recognised')
+    no_product = img_node is not None and not any((isinstance(x, ast.BinOp) and isinstance(x.op, ast.Mult)) or
+                                                  (isinstance(x, ast.Call) and norm_text(x.func).split('.')[-1] in ('multiply', 'where', 'prod'))
+                                                  for x in ast.walk(img_node))
+    ctx.ob('R5', fi, 'image', True if mask else (False if (img_node is not None and 'F.dims' in norm_text(img_node) and no_product) else None),
            f'periodic image offset = dims * {mask}' if mask else 'the image offset is not the grid size masked by the percolation directions '
            '(the target is then a full cell away along axes that were not requested / not tiled)')
-    tiles = [n for n in ast.walk(body) if isinstance(n, ast.Call) and norm_text(n.func).endswith('tile')]
-    for n in tiles:
-        reps = norm_text(n.args[1]).replace(' ', '') if len(n.args) > 1 else ''
-        ok = mask is not None and reps in (f'tuple(1+{mask})', f'1+{mask}', f'tuple({mask}+1)')
-        ctx.ob('R5', fi, n, True if ok else (None if mask is None else False),
-               'grid tiled once more along exactly the percolation directions' if ok else f'tiling `{reps}` does not match the image mask `{mask}`')
-    stops = [n for n in ast.walk(body) if isinstance(n, ast.Assign) and norm_text(n.targets[0]) == 'stop_point']
-    for n in stops:
-        t = norm_text(n.value).replace(' ', '')
-        ok = t in ('start_point+image', 'image+start_point')
-        ctx.ob('R5', fi, n, True if ok else False, 'stop = start + image' if ok else 'the percolation target is not the periodic image of the start peak')
+    from .C04 import functions_under
+    tiles = [(f_, n) for f_ in functions_under(it, OPP, ctx.p) for n in ast.walk(f_.node) if isinstance(n, ast.Call) and norm_text(n.func).endswith('tile')]
+    for f_, n in tiles:
+        rt = parse_sx(it.sx(n.args[1]), full=True) if len(n.args) > 1 else None
+        reps = norm_text(rt).replace(' ', '') if rt is not None else ''
+        mk = (mask or '').replace(' ', '')
+        ok = None
+        if mask is not None:
+            if reps in (f'tuple(1+{mk})', f'1+{mk}', f'tuple({mk}+1)', f'{mk}+1'):
+                ok = True
+            elif isinstance(rt, ast.Call) and norm_text(rt.func) == 'tuple' and rt.args and isinstance(rt.args[0], (ast.GeneratorExp, ast.ListComp)):
+                g = rt.args[0]
+                src = norm_text(g.generators[0].iter).replace(' ', '')
+                el = g.elt
+                two_one = isinstance(el, ast.IfExp) and isinstance(el.body, ast.Constant) and el.body.value == 2 and isinstance(el.orelse, ast.Constant) \
+                    and el.orelse.value == 1 and norm_text(el.test) == norm_text(g.generators[0].target)
+                one_plus = norm_text(el).replace(' ', '') in (f'1+{norm_text(g.generators[0].target)}', f'{norm_text(g.generators[0].target)}+1',
+                                                              f'1+int({norm_text(g.generators[0].target)})')
+                if (two_one or one_plus) and (src == mk or mk in (f'np.array({src})', f'np.asarray({src})')):
+                    ok = True
+            elif 'F.dims' not in reps and reps and all(ch.isdigit() or ch in '(),' for ch in reps):
+                ok = False  # a fixed tiling independent of the requested directions
+        ctx.ob('R5', f_, n, ok, 'grid tiled once more along exactly the percolation directions' if ok else f'tiling `{reps}` does not match the image mask `{mask}`')
     cmps = [n for n in ast.walk(body) if isinstance(n, ast.Compare) and 'best_cost' in norm_text(n)]
     for n in cmps:
         t = norm_text(n).replace(' ', '')
@@ -385,9 +443,3 @@ def check_percolation(ctx):
     for n in restores:
         ok = norm_text(n.value) == 'F.dims'
         ctx.ob('R5', fi, n, True if ok else False, 'original grid dimensions restored' if ok else 'dims restored from something other than the original volume')
-    # the search inside uses the tiled graph and the default (dijkstra) method
-    calls = [n for n in ast.walk(body) if isinstance(n, ast.Call) and norm_text(n.func) == 'optimal_path']
-    for n in calls:
-        kw = {k.arg: norm_text(k.value) for k in n.keywords}
-        ok = kw.get('start') == 'start_point' and kw.get('stop') == 'stop_point' and n.args and norm_text(n.args[0]) == 'F_graph'
-        ctx.ob('R5', fi, n, True if ok else None, 'path from the peak to its image on the tiled graph')
